@@ -1,6 +1,6 @@
 //go:build verif
 
-package fp448
+package fp448_test
 
 // C14 for math/fp448: the same operand alphabet through every exported operation under each
 // build/CPU configuration; the driver diffs the per-case digests. Back-ends: fp_noasm.go (purego),
@@ -10,12 +10,13 @@ import (
 	"testing"
 
 	"github.com/cloudflare/circl/internal/verifc14"
+	fp "github.com/cloudflare/circl/math/fp448"
 )
 
-func c14Elt(b []byte) *Elt { e := new(Elt); copy(e[:], b); return e }
+func c14Elt(b []byte) *fp.Elt { e := new(fp.Elt); copy(e[:], b); return e }
 
-func c14Junk() *Elt {
-	e := new(Elt)
+func c14Junk() *fp.Elt {
+	e := new(fp.Elt)
 	for i := range e {
 		e[i] = byte(0xa5 ^ i)
 	}
@@ -23,12 +24,12 @@ func c14Junk() *Elt {
 }
 
 func c14Field() *verifc14.Field {
-	bin := map[string]func(z, x, y *Elt){"Add": Add, "Sub": Sub, "Mul": Mul}
-	un := map[string]func(z, x *Elt){"Sqr": Sqr, "Neg": Neg, "Inv": Inv,
-		"Modp": func(z, x *Elt) { *z = *x; Modp(z) }}
-	pred := map[string]func(x *Elt) bool{"IsZero": IsZero, "IsOne": IsOne}
+	bin := map[string]func(z, x, y *fp.Elt){"Add": fp.Add, "Sub": fp.Sub, "Mul": fp.Mul}
+	un := map[string]func(z, x *fp.Elt){"Sqr": fp.Sqr, "Neg": fp.Neg, "Inv": fp.Inv,
+		"Modp": func(z, x *fp.Elt) { *z = *x; fp.Modp(z) }}
+	pred := map[string]func(x *fp.Elt) bool{"IsZero": fp.IsZero, "IsOne": fp.IsOne}
 	return &verifc14.Field{
-		Name: "GF(2^448-2^224-1)", Size: Size,
+		Name: "GF(2^448-2^224-1)", Size: fp.Size,
 		BinOps: []string{"Add", "Sub", "Mul"}, UnOps: []string{"Sqr", "Neg", "Inv", "Modp"}, PredOps: []string{"IsZero", "IsOne"},
 		Bin: func(op string, alias int, xb, yb []byte) []byte {
 			x, y, z := c14Elt(xb), c14Elt(yb), c14Junk()
@@ -51,22 +52,26 @@ func c14Field() *verifc14.Field {
 		},
 		Pred: func(op string, xb []byte) bool { return pred[op](c14Elt(xb)) },
 		Canon: func(xb []byte) []byte {
-			out := make([]byte, Size)
-			if err := ToBytes(out, c14Elt(xb)); err != nil {
+			out := make([]byte, fp.Size)
+			if err := fp.ToBytes(out, c14Elt(xb)); err != nil {
 				panic(err)
 			}
 			return out
 		},
-		AddSub: func(xb, yb []byte) ([]byte, []byte) { x, y := c14Elt(xb), c14Elt(yb); AddSub(x, y); return x[:], y[:] },
-		Cmov:   func(xb, yb []byte, b uint) []byte { x, y := c14Elt(xb), c14Elt(yb); Cmov(x, y, b); return x[:] },
+		AddSub: func(xb, yb []byte) ([]byte, []byte) {
+			x, y := c14Elt(xb), c14Elt(yb)
+			fp.AddSub(x, y)
+			return x[:], y[:]
+		},
+		Cmov: func(xb, yb []byte, b uint) []byte { x, y := c14Elt(xb), c14Elt(yb); fp.Cmov(x, y, b); return x[:] },
 		Cswap: func(xb, yb []byte, b uint) ([]byte, []byte) {
 			x, y := c14Elt(xb), c14Elt(yb)
-			Cswap(x, y, b)
+			fp.Cswap(x, y, b)
 			return x[:], y[:]
 		},
 		InvSqrt: func(xb, yb []byte) ([]byte, bool) {
 			x, y, z := c14Elt(xb), c14Elt(yb), c14Junk()
-			ok := InvSqrt(z, x, y)
+			ok := fp.InvSqrt(z, x, y)
 			return z[:], ok
 		},
 	}
@@ -74,18 +79,18 @@ func c14Field() *verifc14.Field {
 
 func TestVerifC14_fp448(t *testing.T) {
 	c := verifc14.Start(t, "fp448")
-	c.Backend("math/fp448.hasBmi2Adx", c14Backend(), verifc14.FpSel)
+	c.BackendOptional("math/fp448.hasBmi2Adx", fp.C14ReadBackend, verifc14.FpSel)
 	m1, b63 := ^uint64(0), uint64(1)<<63
 	wide := []uint64{1, 2, 1<<32 - 1, 1 << 32, 1<<32 + 1, b63 - 1, b63, b63 + 1, m1 - 1<<32, m1 - 1<<32 + 1, m1 - 1<<32 - 1, m1 - 2, m1 - 1}
-	pp := P()
-	p224 := make([]byte, Size)
+	pp := fp.P()
+	p224 := make([]byte, fp.Size)
 	p224[28] = 1
-	p447 := make([]byte, Size)
+	p447 := make([]byte, fp.Size)
 	p447[55] = 0x80
-	p225 := make([]byte, Size)
+	p225 := make([]byte, fp.Size)
 	p225[28] = 2
 	named := map[string][]byte{"p": pp[:], "2^224": p224, "2^225": p225, "2^447": p447,
-		"2^448-20": verifc14.AddSmall(make([]byte, Size), -20), "2^448-2^224": verifc14.AddSmall(pp[:], 1)}
+		"2^448-20": verifc14.AddSmall(make([]byte, fp.Size), -20), "2^448-2^224": verifc14.AddSmall(pp[:], 1)}
 	all := verifc14.FieldAlphabet(7, wide, named, -19, 19, c.R.Pick(8, 64), "fp448")
 	key := verifc14.Thin(all, c.R.Pick(40, 120))
 	c.R.Rule("operands: every 56-byte string whose seven limbs are in {0,2^64-1}; every string one limb away from 00../FF.. over a 13-value limb list; " +
